@@ -1,5 +1,6 @@
 /- C07 driver: runs the ALM model (`Alpaqa.C07.run`, generated loop body) at `Float` against a
-   scripted inner solver; one op line in, one line out (same protocol as harness/c07.cpp). -/
+   scripted inner solver (clock bit and stop bit per inner solve, `prestop`); one op line in, one line
+   out (same protocol as harness/c07.cpp). -/
 import Alpaqa.Model.Proto
 import Alpaqa.Model.C07
 
@@ -14,6 +15,8 @@ structure Entry where
   iters : Nat
   extra : Nat
   oot : Bool
+  /-- `alm.stop()` is called from inside this inner solve -/
+  stop : Bool
 
 abbrev AccT := Nat × Nat × Nat
 def accAdd (a : AccT) (s : Nat × Nat) : AccT := (a.1 + s.1, a.2.1 + s.2, a.2.2 + 1)
@@ -23,8 +26,8 @@ def infF : Float := 1.0 / 0.0
 
 def entry : P Entry := do
   let si ← nat; let eps ← flt; let errz ← vec; let dy ← vec; let dx ← flt
-  let iters ← nat; let extra ← nat; let oot ← bool
-  pure ⟨SolverStatus.all.getD si .Exception, eps, errz, dy, dx, iters, extra, oot⟩
+  let iters ← nat; let extra ← nat; let oot ← bool; let stop ← bool
+  pure ⟨SolverStatus.all.getD si .Exception, eps, errz, dy, dx, iters, extra, oot, stop⟩
 
 def entries : Nat → List Entry → P (List Entry)
   | 0, acc => pure acc.reverse
@@ -32,12 +35,17 @@ def entries : Nat → List Entry → P (List Entry)
 
 /-- default continuation of a script that is shorter than the run: converge with zero error -/
 def defaultEntry (m : Nat) : Entry :=
-  ⟨.Converged, 0.0, List.replicate m 0.0, List.replicate m 0.0, 0.0, 1, 0, false⟩
+  ⟨.Converged, 0.0, List.replicate m 0.0, List.replicate m 0.0, 0.0, 1, 0, false, false⟩
 
-def scripted (m : Nat) (script : List Entry) (c : InnerCall Float) : InnerResult Float (Nat × Nat) :=
+/-- The stop oracle of the scripted run: ALM's flag is never cleared, so after inner solve `k` it is
+    visible iff `alm.stop()` was called before the solve (`prestop`) or from inside one of the inner
+    solves `0..k`. -/
+def scripted (m : Nat) (prestop : Bool) (script : List Entry) (c : InnerCall Float) :
+    InnerResult Float (Nat × Nat) :=
   let e := script.getD c.opts.outer_iter (defaultEntry m)
   { status := e.status, eps := e.eps, x := c.x.map (· + e.dx), y := vadd c.y e.dy, errz := e.errz,
-    stats := (e.iters, e.extra), outOfTime := e.oot }
+    stats := (e.iters, e.extra), outOfTime := e.oot,
+    stopSeen := prestop || (script.take (c.opts.outer_iter + 1)).any (·.stop) }
 
 def statusName (s : SolverStatus) : String := (reprStr s).replace "Alpaqa.Gen.SolverStatus." ""
 
@@ -57,13 +65,14 @@ def c07Step (_ : Unit) (line : String) : Unit × String :=
         let m ← nat; let split ← nat; let lb ← vec; let ub ← vec; let f0 ← flt; let g0 ← vec
         let hasSig ← bool; let sig ← vec
         let x ← vec; let y ← vec
+        let prestop ← bool
         let ns ← nat
         let script ← entries ns []
         let P : ALMParams Float := ⟨tol, dtol, puf, ip, ipf, itol, tuf, theta, mm, maxp, minp, maxIter, single⟩
         let prob : Problem Float :=
           ⟨m, lb.map (· == (-1.0/0.0)), ub.map (· == (1.0/0.0)), split, f0, g0⟩
         let res := C07.run nanF infF ((0, 0, 0) : AccT) accAdd P prob x y
-          (if hasSig then some sig else none) (scripted m script)
+          (if hasSig then some sig else none) (scripted m prestop script)
         if res.logicError then pure "logic_error" else
         let s := res.stats
         let sg := match res.sigmaOut with | none => "0" | some v => s!"1 {fmtV v}"
